@@ -17,6 +17,8 @@ class NeedBranch(Exception):
 
 
 _SYMS = {}
+import os as _os
+_DEBUG_SLOW = _os.environ.get('PYVC_DEBUG') == 'slow'
 
 
 def symbols_of(t):
@@ -70,7 +72,74 @@ def relevant(pc, goal_syms):
     return kept
 
 
+_HASQ = {}
+
+
+def _nested_quantifier(t):
+    seen = set()
+    todo = [t]
+    while todo:
+        x = todo.pop()
+        if z3.is_quantifier(x):
+            return True
+        xid = x.get_id()
+        if xid in seen:
+            continue
+        seen.add(xid)
+        if z3.is_app(x):
+            todo.extend(x.children())
+    return False
+
+
+def _mentions_string(t):
+    seen = set()
+    todo = [t]
+    while todo:
+        x = todo.pop()
+        xid = x.get_id()
+        if xid in seen:
+            continue
+        seen.add(xid)
+        if z3.is_quantifier(x):
+            todo.append(x.body())
+        elif z3.is_app(x):
+            if x.sort().kind() == z3.Z3_SEQ_SORT:
+                return True
+            todo.extend(x.children())
+    return False
+
+
+def has_quantifier(t):
+    key = t.get_id()
+    hit = _HASQ.get(key)
+    if hit is not None and hit[0] is t:
+        return hit[1]
+    found = False
+    seen = set()
+    todo = [t]
+    while todo:
+        x = todo.pop()
+        if z3.is_quantifier(x):
+            # only the expensive ones: facts about texts (sequence theory under a quantifier), facts over pairs of indices
+            if x.num_vars() > 1 or _nested_quantifier(x.body()) or _mentions_string(x.body()):
+                found = True
+                break
+            continue
+        xid = x.get_id()
+        if xid in seen:
+            continue
+        seen.add(xid)
+        if z3.is_app(x):
+            todo.extend(x.children())
+    if len(_HASQ) > 100000:
+        _HASQ.clear()
+    _HASQ[key] = (t, found)
+    return found
+
+
 class Explorer:
+    SKIP_QUANTIFIED = False     # set per contract (fast_branch=True): quantified facts about texts are left out of feasibility checks
+
     def __init__(self, branch_timeout_ms=2000, max_paths=4000):
         self.branch_timeout_ms = branch_timeout_ms
         self.max_paths = max_paths
@@ -85,6 +154,8 @@ class Explorer:
         self.modular_memo = {}
         self.cell_reads_seed = []
         self.cell_reads = []
+        self.str_cmp_terms_seed = []
+        self.str_cmp_terms = []
         self.heap_seed = None
         self.heap = None
         self.heap_writes = []
@@ -115,6 +186,7 @@ class Explorer:
         self.first_choice = dict(self.first_choice_seed)
         self.modular_memo = dict(self.modular_memo_seed)
         self.cell_reads = list(self.cell_reads_seed)
+        self.str_cmp_terms = list(self.str_cmp_terms_seed)
         self.heap = dict(self.heap_seed) if self.heap_seed is not None else None
         self.heap_writes = []
         self.notes = []
@@ -160,12 +232,21 @@ class Explorer:
         s = z3.Solver()
         # resource limit, not wall-clock: deterministic and thread-free
         s.set('rlimit', self.branch_rlimit)
-        for c in relevant(self.pc, symbols_of(cond)):
+        pc = self.pc
+        if Explorer.SKIP_QUANTIFIED:
+            # feasibility only: without the quantified facts more paths look feasible (never fewer); what is
+            # obliged at the end of a path is still checked against the whole path condition
+            pc = [c for c in pc if not has_quantifier(c)]
+        for c in relevant(pc, symbols_of(cond)):
             s.add(c)
         s.add(cond)
         r = s.check()
-        self.solver_ms += (time.time() - t0) * 1000
+        dt = (time.time() - t0) * 1000
+        self.solver_ms += dt
         self.branch_queries += 1
+        if dt > 300 and _DEBUG_SLOW:
+            print('SLOW-BRANCH %.0fms %s site=%s cond=%s' % (dt, r, self.fork_site() if self.fork_site else None,
+                                                           str(cond)[:300].replace(chr(10), ' ')))
         return r
 
     def branch(self, cond):
